@@ -97,7 +97,17 @@ def configs(tier, seed):
             hrrs.append(c)
     if tier != "thorough":
         hrrs = [c for i, c in enumerate(hrrs) if (i + seed) % 3 == 0]
-    allc = out + var + bigs + hrrs
+    # CBC records padded to the maximum a peer may use (255 bytes), full-size fragments included: the receiver's
+    # ciphertext ceiling is 2^14 + 2048 before TLS 1.3
+    longp = []
+    for b in bigs:
+        if b["cbc"] and tuple(b["ver"]) >= (3, 1):
+            c = dict(b)
+            c["longpad"] = True
+            longp.append(c)
+    if tier != "thorough":
+        longp = [c for i, c in enumerate(longp) if (i + seed) % 2 == 0][:4]
+    allc = out + var + bigs + hrrs + longp
     for i, c in enumerate(allc):
         c["case"] = i
     return allc
@@ -207,6 +217,18 @@ def run_case(cfg):
         info["problems"].append("etm flag not as configured")
     p.c.recordSize = cfg["cuser"]
     p.s.recordSize = cfg["suser"]
+    if cfg.get("longpad"):
+        for conn in (p.c, p.s):
+            rl = conn._recordLayer
+
+            def addPadding(data, _rl=rl):
+                bl = _rl.blockSize
+                pl = bl - 1 - (len(data) % bl)
+                while pl + bl <= 255:
+                    pl += bl
+                data += bytearray([pl] * (pl + 1))
+                return data
+            rl.addPadding = addPadding
     if ver == (3, 4) and cfg["pad"] != "none":
         p.c._recordLayer.padding_cb = pad_cb(cfg["pad"], rnd)
         p.s._recordLayer.padding_cb = pad_cb(cfg["pad"], rnd)
